@@ -85,6 +85,15 @@ pub fn run(a: &Args) -> i32 {
             for strategy in ["allow", "warn", "deny"] {
                 let mut opts = Opts::harness();
                 opts.deprecation = strategy;
+                // a quarter of the cases in the derive delivery form: the strategy is what the user wrote in the attribute,
+                // next to other keys and flags in random positions
+                if rng.chance(25) {
+                    opts.skip_none = rng.chance(60);
+                    opts.other_variant = rng.chance(30);
+                    if super::wire::deliver_by_derive(&mut opts, &doc.ops[0].name, &qtext, &ctx, 0, &mut rng) {
+                        rep.count("delivery:derive-attribute");
+                    }
+                }
                 let res = ctx.run(&stext, is_json, &qtext, &opts);
                 if !res.diffs.is_empty() {
                     rep.disagree(json!({"strategy": strategy, "format": fmt, "diffs": res.diffs.iter().take(5).collect::<Vec<_>>(), "schema": stext, "query": qtext}));
